@@ -151,15 +151,19 @@ def run(chk):
                          "classes (polygons also tilted in thorough); non-trivial = every pair (two distinct queries or a repeated one)")
     chk.notes["exhaustive"] = True
     for cls in Z.CLASSES:
-        tilts = (False, True) if (cls in ("Polygon", "ConvexPolygon") and chk.tier == "thorough") else (False,)
-        for tilt in tilts:
-            proto, _ = Z.make(cls, tilt=tilt)
+        tilts = [(False, False)]
+        if cls in ("Polygon", "ConvexPolygon") and chk.tier == "thorough":
+            tilts.append((True, False))
+        if cls == "Polygon":
+            tilts.append((True, True))        # tilted and listed clockwise about an explicit normal (signed_area < 0)
+        for tilt, opp in tilts:
+            proto, _ = Z.make(cls, tilt=tilt, opposing=opp)
             Q = queries(proto)
             names = sorted(Q)
             # which queries are defined at all for this shape
             ok_names = []
             for n in names:
-                o, _ = Z.make(cls, tilt=tilt)
+                o, _ = Z.make(cls, tilt=tilt, opposing=opp)
                 st, _ = C.excname(Q[n], o, [])
                 if st == "ok":
                     ok_names.append(n)
@@ -172,7 +176,7 @@ def run(chk):
                 keep |= {(b, a) for (a, b) in keep}
                 pairs = sorted(set(pairs[i] for i in idx) | keep)
             for a, b in pairs:
-                obj, _ = Z.make(cls, tilt=tilt)
+                obj, _ = Z.make(cls, tilt=tilt, opposing=opp)
                 held = handed_out(obj)
                 snap = Z.state_snapshot(obj)
                 args = []
